@@ -365,6 +365,50 @@ def rawlink_stream(tag):
                        "is_symlink / no_symlink macros, link exclusion and remove on Stdfs")
 
 
+# ---- C08 / C09: arguments that reach their directory through a link (Stdfs on its own answers) ----------------------------------------------
+def via_link_listing_stream(tag):
+    """a relative link two levels up, listed through the physical path and through a directory link of another depth: the kind of an entry is a
+    fact of the filesystem, not of the spelling of the path that reached it"""
+    hs = []
+    r1, r2 = "/d/ln/b", "/d/x/a/b"
+    shapes = [[op("mkdir_p", "/d/x/t"), op("write_all", "/d/t", b"f")], [op("write_all", "/d/x/t", b"f"), op("mkdir_p", "/d/t")],
+              [op("mkdir_p", "/d/t")], [op("write_all", "/d/t", b"f")], [op("mkdir_p", "/d/x/t")], [op("mkdir_p", "/d/x/t"), op("mkdir_p", "/d/t")]]
+    for sh in shapes:
+        for tgt in ["../../t", "../../../x/t", "../t"]:
+            pre = [op("mkdir_p", "/d/x/a/b")] + sh + ["rawlink:%s:%s" % (hx("/d/x/a/b/lk"), hx(tgt)), "rawlink:%s:%s" % (hx("/d/ln"), hx("x/a"))]
+            q = []
+            for r in (r1, r2):
+                q += [op("dirs", r), op("files", r), op("is_symlink_dir", r + "/lk"), op("is_symlink_file", r + "/lk"), "entries:%s:sort,dirs" % hx(r),
+                      "entries:%s:sort,files" % hx(r), op("all_dirs", r), op("all_files", r)]
+            hs.append(_line("s", pre + q))
+
+    def law(line, out):
+        r = _res(out)
+        n = len(r)
+        a, b = r[n - 16:n - 8], r[n - 8:]
+        a = [x.replace(hx(r1), hx(r2)) for x in a]
+        return a == b
+    return Stream(tag + "-listing-through-a-directory-link-stdfs", "pycheck", hs, impl_env=c_wrap.sandbox_env(tag), pycheck=law, exhaustive=True, nontrivial=lambda l, o: True,
+                  rule="a relative link climbing two levels, listed through the physical directory and through a directory link of another depth: dirs / files / filtered "
+                       "entries / is_symlink_dir / is_symlink_file give the same kinds either way (Stdfs)")
+
+
+def via_link_copy_stream(tag):
+    hs = []
+    pre = [op("mkdir_p", "/d/src/sub"), op("write_all", "/d/src/f", b"f"), op("write_all", "/d/src/sub/g", b"g"), "rawlink:%s:%s" % (hx("/d/lnk"), hx("src/sub")),
+           "rawlink:%s:%s" % (hx("/d/top"), hx("src"))]
+    want = ["/d/src/f", "/d/src/sub", "/d/src/sub/g", "/d/src/sub/out", "/d/src/sub/out/f", "/d/src/sub/out/sub", "/d/src/sub/out/sub/g"]
+    for dst in ["/d/lnk/out", "/d/src/sub/out", "/d/top/sub/out"]:
+        hs.append(_line("s", pre + [op("copy", "/d/src", dst), op("all_paths", "/d/src")]))
+
+    def law(line, out):
+        r = _res(out)
+        return r[-2] == "ok" and r[-1] == "L" + ",".join(hx(x) for x in want)
+    return Stream(tag + "-copy-into-the-source-through-a-link-stdfs", "pycheck", hs, impl_env=c_wrap.sandbox_env(tag), pycheck=law, exhaustive=True, nontrivial=lambda l, o: True,
+                  rule="a directory copied to a destination that lies inside it on disk but is named through a link: exactly the entries the source had when the call "
+                       "started arrive under the destination (Stdfs)")
+
+
 def _extend(mod, pid, extra, note):
     P = dict(mod.PROPS[pid])
     base = P["streams"]
@@ -375,11 +419,11 @@ def _extend(mod, pid, extra, note):
 
 
 _extend(c_path, "C05", lambda tier, rng, ctx: [spelling_stream("c05"), cwd_gone_stream("c05g")], "Stdfs side: the spelling stream runs every method on both backends; the theorems are about the Memfs mirror")
-_extend(c_mem, "C09", lambda tier, rng, ctx: [copy_link_stream("c09"), deferred_copy_stream("c09d")], "Stdfs side: C02, plus the copy-onto-links stream here")
+_extend(c_mem, "C09", lambda tier, rng, ctx: [copy_link_stream("c09"), deferred_copy_stream("c09d"), via_link_copy_stream("c09v")], "Stdfs side: C02, plus the copy-onto-links and copy-into-the-source-through-a-link streams here")
 _extend(c_mem, "C10", lambda tier, rng, ctx: c10_std_streams(tier, rng), "Stdfs side: the link clauses and removal of links are judged on Stdfs's own answers (dangling links are outside C02's domain)")
 _extend(c_mem, "C20", lambda tier, rng, ctx: c20_std_streams(tier, rng, ctx) + [rawlink_stream("c20r")], "Stdfs side: C02 runs every macro on both backends inside its domain; here the macros are judged on Stdfs's own answers, dangling links included")
 _extend(c_mem, "C06", lambda tier, rng, ctx: [hmix_stream("c06h", tier)], "Stdfs side: content laws on both backends, and handles interleaved with other writers judged by the byte-vector model")
 _extend(c_mem, "C07", lambda tier, rng, ctx: [hmix_stream("c07h", tier)], "Stdfs handles interleaved with other writers are judged by the byte-vector model (c_std.py)")
-_extend(c_mem, "C08", lambda tier, rng, ctx: [order_stream("c08o")], "Stdfs side: C02, plus the order stream here")
+_extend(c_mem, "C08", lambda tier, rng, ctx: [order_stream("c08o"), via_link_listing_stream("c08v")], "Stdfs side: C02, plus the order stream and the listing-through-a-directory-link stream here")
 _extend(c_mem, "C11", lambda tier, rng, ctx: [chmod_links_stream("c11l"), deferred_chown_stream("c11d")], "Stdfs side: chmod over trees with links on both backends side by side")
 _extend(c_wrap, "C02", lambda tier, rng, ctx: [spelling_stream("c02s"), copy_link_stream("c02c"), order_stream("c02o"), deferred_copy_stream("c02d"), chmod_links_stream("c02l")], "the spelling and copy-onto-links streams are shared with C05 / C09")
